@@ -28,6 +28,7 @@ type SpecEnv struct {
 	bound   int
 	boundNames map[string]bool
 	atExit     bool // evaluating the verified function's own postcondition
+	callSite   bool // evaluating a callee's contract at a call site
 }
 
 type specLoc struct {
@@ -466,7 +467,7 @@ func (e *SpecEnv) callExpr(n *ast.CallExpr) Val {
 			// state at the first lock acquisition of the function (linearisation point);
 			// at a call site (sequential reasoning) it is the pre-state
 			o := *e
-			if e.u.lockState != nil && e.atExit {
+			if e.u.lockState != nil && !e.callSite {
 				o.st = e.u.lockState
 			} else {
 				o.st = e.old
@@ -517,6 +518,16 @@ func (e *SpecEnv) callExpr(n *ast.CallExpr) Val {
 		case "isSentinel":
 			e.u.em.pre("(declare-fun sentinelId (Int) Int)")
 			return Val{T: fmt.Sprintf("(> (sentinelId %s) 0)", e.expr(n.Args[0]).T), Ty: types.Typ[types.Bool]}
+		case "haskey":
+			mv := e.expr(n.Args[0])
+			mt, ok := mv.Ty.Underlying().(*types.Map)
+			if !ok {
+				e.errf("haskey: not a map")
+				return Val{T: "false", Ty: types.Typ[types.Bool]}
+			}
+			k := e.coerce(e.expr(n.Args[1]), mt.Key())
+			d, _ := e.u.mapGet(e.st, mt)
+			return Val{T: fmt.Sprintf("(and (not (= %s 0)) (select (select %s %s) %s))", mv.T, d, mv.T, k.T), Ty: types.Typ[types.Bool]}
 		case "sameArray":
 			a, b := e.expr(n.Args[0]), e.expr(n.Args[1])
 			return Val{T: fmt.Sprintf("(and (= (s_base %s) (s_base %s)) (not (= (s_base %s) 0)))", a.T, b.T, a.T), Ty: types.Typ[types.Bool]}
